@@ -20,9 +20,16 @@ Definition is_some_nat (o : option nat) : bool := match o with Some _ => true | 
    (0 Context.BindValidRequest, 1 Context.BindAndValidate, 2 the untyped API handler), what was observed inside the
    history (status: None = no error, for the handler None = 200; csm = the consumer that decoded; ran = no refusal:
    the binder went through / the handler ran) and for the same request on a fresh Context (f_) *)
+(* kind = what the operation addressed declares to read: 0 a body parameter, 1 no parameter, 2 only path / query /
+   header parameters, 3 a formData parameter; form_st = for a formData operation, what net/http itself makes of the
+   request as a form (None = a well-formed form of a form media type, else the status of the refusal) *)
+Definition kind_of (n : nat) : opkind :=
+  match n with 0 => KBody | 1 => KNone | 2 => KOther | _ => KForm end.
+
 Inductive hstep :=
 | HStep (declared consumes keys : list bytes) (cl_positive hdr nonempty hasbody_impl : bool)
         (lines : list bytes) (asked : bytes) (parse reparse : option bytes) (entry : nat)
+        (kind : nat) (form_st : option nat)
         (status : option nat) (csm : option bytes) (ran : bool)
         (f_status : option nat) (f_cons : option bytes) (f_ran : bool).
 
@@ -33,6 +40,7 @@ Inductive case :=
         (t_status : option nat) (t_cons : option bytes)
         (u_status : option nat) (u_cons : option bytes)
         (h_status : nat) (h_cons : option bytes) (h_ran : bool)
+        (kind : nat) (form_st : option nat) (u_picked : option bytes)
 (* several requests answered one after the other by ONE Context of an API with several operations (same path under
    different methods, and other paths), each with its own consumes list *)
 | CHist (default : bytes) (registered : list bytes) (steps : list hstep).
@@ -40,11 +48,14 @@ Inductive case :=
 Definition step_check (default : bytes) (registered : list bytes) (st : hstep) : bool * bool :=
   match st with
   | HStep declared consumes keys cl_positive hdr nonempty hasbody_impl lines asked parse reparse entry
-          status csm ran f_status f_cons f_ran =>
+          kind form_st status csm ran f_status f_cons f_ran =>
     let hb := has_body cl_positive hdr nonempty in
     let mconsumes := add_route_consumes declared default in
     let g := gate_req default registered (mkgreq declared hb parse reparse (Nat.eqb entry 0)) in
-    let mo := (first_status g, decoding_consumer g) in
+    (* BindValidRequest is given a binder that decodes through route.Consumer whatever the operation declares;
+       the reflective entry points go on to the parameter stage of the operation *)
+    let mo := if Nat.eqb entry 0 then (first_status g, decoding_consumer g)
+              else reflective (kind_of kind) form_st g in
     (* the answer inside the history is the answer of a fresh Context *)
     let same := res_eqb (status, csm) (f_status, f_cons) && Bool.eqb ran f_ran in
     let corr :=
@@ -54,7 +65,9 @@ Definition step_check (default : bytes) (registered : list bytes) (st : hstep) :
       res_eqb (status, csm) mo && Bool.eqb ran (negb (is_some_nat (fst mo))) && same in
     let ex := expected_req default registered
                 (mkgreq declared (cl_positive || (negb hdr && nonempty)) parse reparse (Nat.eqb entry 0)) in
-    let prop := res_eqb (status, csm) ex && Bool.eqb ran (negb (is_some_nat (fst ex))) && same in
+    let prop :=
+      (if Nat.eqb entry 0 then res_eqb (status, csm) ex && Bool.eqb ran (negb (is_some_nat (fst ex)))
+       else reflective_ok (kind_of kind) (is_some form_st) ex status csm ran) && same in
     (corr, prop)
   end.
 
@@ -65,12 +78,13 @@ Definition step_check (default : bytes) (registered : list bytes) (st : hstep) :
 Definition check_case (c : case) : N :=
   match c with
   | CGate declared default registered consumes keys cl_positive hdr nonempty hasbody_impl lines asked parse reparse ct_impl
-          t_status t_cons u_status u_cons h_status h_cons h_ran =>
+          t_status t_cons u_status u_cons h_status h_cons h_ran kind form_st u_picked =>
     let hb := has_body cl_positive hdr nonempty in
     let mconsumes := add_route_consumes declared default in
     let mkeys := route_consumers mconsumes registered in
     let mt := (first_status (gate_typed hb parse reparse mconsumes mkeys), decoding_consumer (gate_typed hb parse reparse mconsumes mkeys)) in
-    let mu := (first_status (gate_untyped hb parse reparse mconsumes mkeys), decoding_consumer (gate_untyped hb parse reparse mconsumes mkeys)) in
+    let gu := gate_untyped hb parse reparse mconsumes mkeys in
+    let mu := reflective (kind_of kind) form_st gu in
     let corr :=
       same_set_b consumes mconsumes &&
       same_set_b keys mkeys &&
@@ -82,15 +96,21 @@ Definition check_case (c : case) : N :=
       res_eqb (t_status, t_cons) mt &&
       res_eqb (u_status, u_cons) mu &&
       Nat.eqb h_status (match fst mu with Some c => c | None => 200 end) &&
-      opt_bytes_eqb h_cons (snd mu) && Bool.eqb h_ran (negb (is_some_nat (fst mu))) in
+      opt_bytes_eqb h_cons (snd mu) && Bool.eqb h_ran (negb (is_some_nat (fst mu))) &&
+      (* the consumer BindAndValidate left in route.Consumer when it did not refuse: the one the gate stored *)
+      (is_some_nat (fst mu) || opt_bytes_eqb u_picked (snd gu)) in
     (* the request carries a body: a positive length, or no length header and a readable byte.
        The expectation is computed from the inputs alone: declared list, API default, consumers registered on the
        API, and the independent parse of the header value *)
     let ex := expected_route (cl_positive || (negb hdr && nonempty)) parse declared default registered in
+    let k := kind_of kind in
     let prop :=
-      res_eqb (t_status, t_cons) ex && res_eqb (u_status, u_cons) ex &&
-      Nat.eqb h_status (match fst ex with Some c => c | None => 200 end) &&
-      opt_bytes_eqb h_cons (snd ex) && Bool.eqb h_ran (negb (is_some_nat (fst ex))) &&
+      res_eqb (t_status, t_cons) ex &&
+      (* the reflective entry points: the gate's refusal whatever the operation declares to read; past the gate the
+         consumer decodes only for a body parameter, and the two entry points picked the same consumer *)
+      reflective_ok k (is_some form_st) ex u_status u_cons (negb (is_some_nat u_status)) &&
+      reflective_ok k (is_some form_st) ex (if Nat.eqb h_status 200 then None else Some h_status) h_cons h_ran &&
+      (is_some_nat u_status || picked_ok ex u_picked) &&
       (* the API default is always added to the consumes list: an entry of the route's list names it *)
       (is_nilb default || listed_ci consumes default) in
     verdict corr prop
